@@ -643,6 +643,7 @@ func configs() []cfg {
 type replay struct {
 	Cfg     cfg
 	Choices []vsched.TransKey
+	Net     *netCase `json:"net,omitempty"`
 }
 
 func main() {
@@ -650,6 +651,11 @@ func main() {
 	if *vrt.ReplayPath != "" {
 		var rp replay
 		vrt.LoadReplay(&rp)
+		if rp.Net != nil {
+			checkNetRelay(res, *rp.Net)
+			res.Finish()
+			return
+		}
 		r := &run{}
 		o, key, msg, trace := vsched.Replay(vsched.Config{Body: body(rp.Cfg, r), Check: check(rp.Cfg, r, map[string]struct{}{})}, rp.Choices)
 		fmt.Println(strings.Join(trace, "\n"))
@@ -687,13 +693,33 @@ func main() {
 		}
 		info = append(info, fmt.Sprintf("%s: execs=%d exhaustive=%v", c, st.Executions, st.Exhaustive))
 		for _, v := range st.Violations {
-			res.Violate(v.Key+" "+c.Kind, v.Msg+"\nconfig "+c.String()+"\ntrace:\n"+strings.Join(v.Trace, "\n"), replay{c, v.Choices})
+			res.Violate(v.Key+" "+c.Kind, v.Msg+"\nconfig "+c.String()+"\ntrace:\n"+strings.Join(v.Trace, "\n"), replay{Cfg: c, Choices: v.Choices})
 		}
 		if i == 0 {
 			for _, t := range st.SampleTraces {
 				res.Sample(map[string]any{"config": c.String(), "schedule": t})
 			}
 		}
+	}
+	// the relay over the connection factories NewClient builds itself, against a real loopback peer (netrelay.go)
+	if !vsched.Free() && vsched.FreeRuns == 0 {
+		ran := 0
+		for i, nc := range netCases() {
+			if i%*vrt.NShards != *vrt.Shard {
+				continue
+			}
+			if vrt.Expired() {
+				res.Exhaustive = false
+				break
+			}
+			if checkNetRelay(res, nc) {
+				ran++
+				res.Evaluations++
+				res.Traces++
+				outcomes["net "+nc.String()] = struct{}{}
+			}
+		}
+		res.Counters["net_relay_sequences_run"] += int64(ran)
 	}
 	res.Info["configs"] = info
 	res.SetDistinctKeys(outcomes)
